@@ -340,3 +340,23 @@ B("C11", "closing-brace scan returns index of the paren", D + "vba.py", "    if 
 B("C11", "IP trail assertion vetoes quotes", NET, '+ _OCTET_RE + rb"(?![\\w.-])"', '+ _OCTET_RE + rb"(?![\\w.\\"-])"', "R3-anchors")
 N("C11", "equal-language regex rewrite", NET, '_OCTET_RE = rb"(?:0x0*[a-f0-9]{1,2}|0*\\d{1,3})"', '_OCTET_RE = rb"(?:0x0*[0-9a-f][0-9a-f]?|0*[0-9]{1,3})"')
 N("C11", "filters merged", NET, "        if not is_domain(domain) or len(domain) < 7:\n            continue\n        if domain_is_false_positive(domain):\n            continue\n", "        if not is_domain(domain) or len(domain) < 7:\n            continue\n        fp = domain_is_false_positive(domain)\n        if fp:\n            continue\n")
+
+# ------------------------------------------------------------------ C16
+SH = D + "shell.py"
+B("C16", "break removed after truncation", SH, "                end = start + i\n                break\n", "                end = start + i\n", "R")
+B("C16", "end = len(data) - start copied into the quoted branch", SH, "                if end < 0:\n                    # The string or FOR loop is never closed, assume it runs to the end of the data\n                    end = len(data)\n", "                if end < 0:\n                    end = len(data) - start\n", "R1-coherence")
+B("C16", "caret label guard inverted", SH, '"unescape.shell.carets" if stripped != cmd else ""', '"unescape.shell.carets" if stripped == cmd else ""', "R2-label")
+B("C16", "ENC_RE loses the ec alias", SH, 'rb"e\\^?(?:c|n\\^?(?:c', 'rb"e\\^?(?:n\\^?(?:c', "R3-enc-switch")
+B("C16", "slash rewrite after the split", SH, "            pwsh_invocation = b\" -\".join(pwsh_invocation.split(b\"/\"))  # Replace cmd style args with powershell style\n            args = pwsh_invocation.split()\n", "            args = pwsh_invocation.split()\n            pwsh_invocation = b\" -\".join(pwsh_invocation.split(b\"/\"))  # Replace cmd style args with powershell style\n", "R4-encoded")
+B("C16", "decoded as utf-8", SH, '.decode("utf-16", errors="ignore").encode()', '.decode("utf-8", errors="ignore").encode()', "R4-encoded")
+B("C16", "continuation keeps processing the next char", SH, "                if i >= len(cmd):\n                    break  # The line continuation is the last thing in the command\n", "                if i >= len(cmd):\n                    break  # The line continuation is the last thing in the command\n                continue\n", "R6-caret-machine")
+B("C16", "CR does not end a quoted region", SH, "            in_string = False  # Line breaks automatically end strings\n", "            pass\n", "R6-caret-machine")
+B("C16", "caret literal inside quotes dropped", SH, 'elif character == ord("^") and not in_string:', 'elif character == ord("^"):', "R6-caret-machine")
+B("C16", "line continuation skips only CR", SH, "                i += 2  # skip \\r\\n\n", "                i += 1  # skip \\r\n", "R6-caret-machine")
+B("C16", "trailing caret kept", SH, 'if i < len(cmd) and (cmd[i] != ord("^") or in_string):', "if i < len(cmd):", "R6-caret-machine")
+B("C16", "paren scan counts brackets too", SH, '            if char == ord(b")"):\n', '            if char == ord(b")") or char == ord(b"]"):\n', "R7-delimiting")
+B("C16", "paren scan truncates at <= 0", SH, "            if parens < 0:\n", "            if parens <= 0 and i:\n", "R7-delimiting")
+B("C16", "CMD_RE tail admits NUL", SH, '\\bc\\^?m\\^?d\\b)[^\\x00]*\'', '\\bc\\^?m\\^?d\\b)(?s:.)*\'', "R7-delimiting")
+N("C16", "loop bound rewritten", SH, "    while i < len(cmd) - 1:\n", "    while i + 1 < len(cmd):\n")
+N("C16", "character temp removed", SH, '        character = cmd[i]\n        if character == ord(\'"\'):', '        character = cmd[i + 0]\n        if character == ord(\'"\'):')
+N("C16", "find result clamped with if/else", SH, "                if end < 0:\n                    # The string or FOR loop is never closed, assume it runs to the end of the data\n                    end = len(data)\n", "                end = len(data) if end < 0 else end\n")
